@@ -433,7 +433,7 @@ func Print(n Node, st Style) string {
 	return p.join()
 }
 
-var wsChoices = []string{" ", "  ", "\n", "\t", " \n "}
+var wsChoices = []string{" ", "  ", "\n", "\t", " \n ", "\r\n", "\r", "\v", "\r\n\t"}
 
 func isWordTok(s string) bool {
 	return s == "and" || s == "or" || s == "in"
